@@ -341,6 +341,8 @@ func runSchedule(c schedCell, d *sched.DFS) (res schedResult) {
 			res.verdicts09 = append(res.verdicts09, verdict{"secret-leaked", fmt.Sprintf("%s still open after every process closed", sr)})
 		case st.TouchAfterClose > 0:
 			res.verdicts09 = append(res.verdicts09, verdict{"touch-after-close", fmt.Sprintf("%s accessed after Close", sr)})
+		case st.CloseCalls > 1:
+			res.verdicts09 = append(res.verdicts09, verdict{"secret-closed-twice", fmt.Sprintf("%s was closed %d times", sr, st.CloseCalls)})
 		}
 	}
 	return res
